@@ -10,9 +10,11 @@ static void init_globals(void)
 {
   /* static initialisers of abg-tools-utils.cc: `static int X_LEN = strlen(X)`; clang -O1
      shrinks each to an i1 "initialised" flag (true => the constant length). */
+#ifndef VERIF_NATIVE_REAL /* the real object runs its own static initialisers */
   _ZN7abigail11tools_utilsL34ANONYMOUS_STRUCT_INTERNAL_NAME_LENE = 1;
   _ZN7abigail11tools_utilsL33ANONYMOUS_UNION_INTERNAL_NAME_LENE = 1;
   _ZN7abigail11tools_utilsL32ANONYMOUS_ENUM_INTERNAL_NAME_LENE = 1;
+#endif
 }
 
 void h_dne_symmetry(void)
@@ -85,7 +87,7 @@ static void mk_anon(vstr *s, unsigned k, int with_member)
   u64 nd = nondet_u64();
   __CPROVER_assume(nd <= 2);
   for (u64 i = 0; i < 2; i++)
-    if (i < nd) { u8 c = nondet_u8(); __CPROVER_assume(c >= '0' && c <= '9'); buf[n++] = c; }
+    if (i < nd) { u8 c = nondet_u8(); __CPROVER_assume(c <= 9); buf[n++] = (u8)('0' + c); }
   if (with_member) { buf[n++] = ':'; buf[n++] = ':'; buf[n++] = 'm'; }
   vs_make_n(s, buf, n);
 }
